@@ -13,6 +13,7 @@ import (
 	"encoding/hex"
 	"fmt"
 	"math/big"
+	"os"
 	"sort"
 	"sync"
 	"time"
@@ -285,6 +286,27 @@ type Node struct {
 }
 
 var nodeMu sync.Mutex
+
+var scratchBase string
+
+// ScratchBase is the directory under which all logical data dirs of this process live.
+func ScratchBase() string {
+	if scratchBase == "" {
+		d, err := os.MkdirTemp("", "verifnode-")
+		if err != nil {
+			panic(err)
+		}
+		scratchBase = d
+	}
+	return scratchBase
+}
+
+// Cleanup removes the scratch base (call from TestMain).
+func Cleanup() {
+	if scratchBase != "" {
+		os.RemoveAll(scratchBase)
+	}
+}
 
 func genesisOf(o Options) *types.Genesis {
 	return &types.Genesis{
